@@ -16,15 +16,20 @@ def make_trace(case, res, want):
                         "tcs": [{"inv": t["inv"], "p": t["p"], "k": t["k"], "ks": t["ks"], "card": t["card"],
                                  "abs": t["abs"], "ratio": t["ratio"], "com": t["com"]} for t in s["tcs"]]}
                        for s in sch["shapes"]],
-            "tracked": res.get("tracked", []), "hasTracked": "tracked" in res, "want": want}
+            "tracked": res.get("tracked", []), "hasTracked": "tracked" in res,
+            "profile": res.get("profile", []), "hasProfile": "profile" in res, "order": res.get("order", []),
+            "pres": {"comments": bool(case["cfg"].get("comments", True)), "report": case["cfg"].get("report", "mixed")}, "want": want}
 
 
 def judge(cases, results, want, procs=8):
     for r in results:
         if r["status"] == "harness-error":
             raise common.Machinery("harness error in case %s: %s\n%s" % (r.get("id"), r.get("exc"), r.get("trace", "")))
-    traces = [make_trace(c, r, want) for c, r in zip(cases, results)]
-    verdicts, stats = tlc.validate_batch("Trace_Shexer", "Trace_Shexer.cfg", traces, procs=procs)
+    # the operational model recurses over the document: conformance with it is judged on documents of up to 60 triples
+    def w(c):
+        return want if len(c["graph"]) <= 60 and c["cfg"].get("format", "shexc") == "shexc" else [x for x in want if x != "drift"]
+    traces = [make_trace(c, r, w(c)) for c, r in zip(cases, results)]
+    verdicts, stats = tlc.validate_batch("Trace_Shexer", "Trace_Shexer.cfg", traces, procs=procs, xss="64m")
     return verdicts, stats
 
 
@@ -40,7 +45,15 @@ def signature(case):
 def run_and_judge(out, cases, want, mine, crash_is_mine=False, label=""):
     """runs the cases through the real code, lets TLC judge them, books the result in `out`"""
     results = runner.run_cases(cases)
-    verdicts, stats = judge(cases, results, want)
+    verdicts, stats = judge(cases, results, want + ([] if "drift" in want else ["drift"]))
+    for c in cases:      # conformance with the operational model, stage by stage: reported in the evidence, never a verdict
+        for cl in verdicts[c["id"]]["clauses"]:
+            if cl.startswith("drift."):
+                key = "model_" + cl.replace(".", "_")
+                out.notes[key] = out.notes.get(key, 0) + 1
+                if len(out.notes.setdefault("model_drift_cases", [])) < 5:
+                    out.notes["model_drift_cases"].append({"clause": cl, "case": c})
+    out.notes["model_conformance_judged"] = out.notes.get("model_conformance_judged", 0) + sum(1 for c in cases if len(c["graph"]) <= 60 and c["cfg"].get("format", "shexc") == "shexc")
     out.traces += len(cases)
     out.evaluations += len(cases)
     out.notes["monitor_states"] = out.notes.get("monitor_states", 0) + stats["states"]
